@@ -236,6 +236,14 @@ def main(pid, tier, replay_path=None):
             broken.append(dict(kind="extraction-vs-kernel", detail=klog[-1500:]))
         common.info("%s [%.1fs] in-kernel replay: %d cases, %d steps, ok=%s" % (pid, t.s(), kernel["cases"], steps, okc and okk))
 
+    if tier == "thorough" and pr["ok"]:
+        okchk, chk = common.coqchk(pid)
+        cov["coqchk"] = dict(ok=okchk, summary=chk)
+        trusted.append("coqchk -silent -o Nexus.Props.%s: %s" % (pid, "ok" if okchk else "FAILED"))
+        if not okchk:
+            broken.append(dict(kind="coqchk", detail=chk[-1500:]))
+        common.info("%s [%.1fs] coqchk ok=%s" % (pid, t.s(), okchk))
+
     # 4. broken obligation / tie without a failing history
     if broken and v.violations == 0 and v.known == 0:
         v.violation(dict(broken=broken, searched=dict(histories=stats_all["scenarios"], ops=stats_all["ops"]),
